@@ -256,7 +256,7 @@ var replChars = func() []byte {
 }()
 
 func main() {
-	worker := flag.String("worker", "", "internal: history worker kind")
+	worker := flag.String("worker", "", "internal: history worker <kind>:<k>/<n>")
 	r = vk.New("exploration")
 	r.SetBudget(80*time.Second, 20*time.Minute)
 	if *worker != "" {
@@ -296,7 +296,6 @@ func main() {
 
 	// ---- A. round trip ---------------------------------------------------------------------------------------
 	var rt, again atomic.Int64
-	encs := make([]string, len(prefixes)*len(payloads))
 	r.ParFor(len(prefixes)*len(payloads), func(i int) {
 		p, d := prefixes[i/len(payloads)], payloads[i%len(payloads)]
 		var enc, hrp string
@@ -321,30 +320,30 @@ func main() {
 		agree("bech32m-checksum", refEncode5(p, to5(d), 0x2bc830a3), true, nil)
 		r.EvalN(2)
 		r.Distinct("rt:" + enc)
-		encs[i] = enc
 		rt.Add(1)
 	})
 	r.OutcomeN("roundtrip_pairs", rt.Load())
 	// second decoding of every valid encoding, in the reverse order (the result may not depend on what was decoded before)
-	r.ParFor(len(encs), func(j int) {
-		i := len(encs) - 1 - j
-		if encs[i] == "" || os.Getenv("C45_NOREV") != "" {
+	nenc := len(prefixes) * len(payloads)
+	r.ParFor(nenc, func(j int) {
+		i := nenc - 1 - j
+		p, d := prefixes[i/len(payloads)], payloads[i%len(payloads)]
+		enc, eerr := bech32.Encode(p, d) // deterministic and checked against the reference in the first pass
+		if eerr != nil {
 			return
 		}
-		p, d := prefixes[i/len(payloads)], payloads[i%len(payloads)]
 		var hrp string
 		var got []byte
 		var err error
-		rec := vk.Catch(func() { hrp, got, err = bech32.DecodeAndConvert(encs[i]) })
+		rec := vk.Catch(func() { hrp, got, err = bech32.DecodeAndConvert(enc) })
 		r.Eval()
 		if rec != nil || err != nil || hrp != p || !bytes.Equal(got, d) {
-			fail("history-dependent:bech32.DecodeAndConvert:valid-string-second-decode-differs(reverse order)", encs[i], fmt.Sprintf("panic=%v err=%v decoded to %s/%x, encoded from %s/%x", rec, err, hrp, got, p, d))
+			fail("history-dependent:bech32.DecodeAndConvert:valid-string-second-decode-differs(reverse order)", enc, fmt.Sprintf("panic=%v err=%v decoded to %s/%x, encoded from %s/%x", rec, err, hrp, got, p, d))
 			return
 		}
 		again.Add(1)
 	})
 	r.OutcomeN("valid_encodings_decoded_a_second_time_in_reverse_order", again.Load())
-	encs = nil // keep the live heap of the remaining parts as small as before
 
 	// base strings for the mutation families
 	var bases []string
